@@ -299,7 +299,7 @@ theorem randAddr_contains {s : Subnet} {d ip : Nat} (hwf : s.wf) (h : randAddr s
   split at h
   · rename_i hv4
     cases h
-    obtain ⟨_, _, hal, _⟩ := hwf hv4
+    have hal := hwf hv4
     have hpos : 0 < s.hosts := by unfold Subnet.hosts; exact Nat.pos_of_ne_zero (by simp)
     have hlt : d % s.hosts < s.hosts := Nat.mod_lt _ hpos
     unfold Subnet.contains
@@ -315,5 +315,41 @@ theorem processBdReq_cases {cfg : Cfg} {req : Req} {ext : Ext} {hf : Heap} (h : 
     ∃ h0, preStage cfg req ext = .ok h0 ∧ Pre req (selected4 req ext) h0 ∧ SubRes cfg req ext h0 hf := by
   obtain ⟨h0, hp, hpre, rfl⟩ := processBdReq_ok h
   exact ⟨h0, hp, hpre, subnetOverride_cases cfg req ext h0⟩
+
+/-- a successful registration is a successful `processBdReq` whose heap yields both views -/
+theorem register_ok {cfg : Cfg} {req : Req} {ext : Ext} {m : Nat} {a : Option String} {c : Resp} {f : Fwd}
+    (h : registerBidirectional cfg req ext m a = .ok c f) :
+    ∃ hf, processBdReq cfg { req with forgedResp := none } ext = .ok hf ∧ c = hf.get hf.rp ∧
+      f.resp = hf.wp.map hf.get ∧ f.signed = (if cfg.authenticated then hf.wp.map hf.get else none) := by
+  unfold registerBidirectional at h
+  simp only at h
+  split at h
+  · cases h
+  · cases h
+  · rename_i hf hbd
+    split at h
+    · cases h
+    · rename_i fw hw
+      split at h
+      · cases h
+        refine ⟨hf, hbd, rfl, ?_, ?_⟩
+        · unfold processC2SWrapper at hw
+          split at hw
+          · cases hw
+          · cases hw; rfl
+        · unfold processC2SWrapper at hw
+          split at hw
+          · cases hw
+          · cases hw; rfl
+      · cases h
+
+/-- the response state after `processBdReq`: both pointers name one object, whatever the subnet override did -/
+theorem final_aliased {cfg : Cfg} {req : Req} {ext : Ext} {hf : Heap} (h : processBdReq cfg req ext = .ok hf) :
+    hf.wp = some hf.rp := by
+  obtain ⟨h0, _, hpre, hsr⟩ := processBdReq_cases h
+  cases hsr with
+  | same => exact hpre.aliased
+  | minSub s ip hs hw hr ht hx => simp [hpre.aliased]
+  | pfxSub s ip id pre fl hs hw hr ht hd hp hx => rfl
 
 end CJ.Registrar
